@@ -13,10 +13,9 @@
 //!   3. lazy `bcf::Record`: accessor sweep through the `variant::Record` trait (+ `Info::get`,
 //!      `Samples::select`, `Series`, `reference_sequence_id`, `end`) = eager read;
 //!   4. the VCF line of what BCF returns (eager and lazy) = the VCF line of the input;
-//!   5. IDX: the repository's header writer cannot emit IDX, so for headers whose IDX differ from
-//!      the order of appearance the harness injects the `IDX=` fields into the header text of the
-//!      written stream itself (the records were encoded with the IDX-based dictionary) and reads
-//!      that; the file exactly as written is checked on a small fraction of cases (known finding).
+//!   5. IDX: headers with arbitrary (non-contiguous, non-monotone) IDX assignments are written and
+//!      read like any other; the dictionaries the reader builds and the indices stored in the
+//!      records (raw walk) must be the IDX values.
 //! Sub-check `reject`: one unrepresentable element (integer in [i32::MIN, i32::MIN+7], float
 //! bit pattern 0x7F800001..7, undeclared contig / FILTER / INFO key / FORMAT key, POS 2^31) is put
 //! into an otherwise valid document: the writer must return `Err`; a panic, an accepted record that
@@ -434,54 +433,6 @@ fn inflate(file: &[u8]) -> Result<Vec<u8>, Vec<Fail>> {
     Ok(bgzf_walk::concat(&members))
 }
 
-/// Insert `,IDX=n` before the closing `>` of every INFO/FILTER/FORMAT/contig line whose model
-/// entry carries an IDX.
-fn inject_idx(text: &[u8], hm: &VarHeader) -> Result<Vec<u8>, String> {
-    let s = std::str::from_utf8(text).map_err(|e| format!("header text not UTF-8: {e}"))?;
-    let mut out = String::with_capacity(s.len() + 64);
-    for line in s.split_inclusive('\n') {
-        let body = line.strip_suffix('\n').unwrap_or(line);
-        let mut idx: Option<u32> = None;
-        for (prefix, kind) in [("##INFO=<ID=", 0), ("##FILTER=<ID=", 1), ("##FORMAT=<ID=", 2), ("##contig=<ID=", 3)] {
-            if let Some(rest) = body.strip_prefix(prefix) {
-                let id = rest.split([',', '>']).next().unwrap_or("");
-                idx = match kind {
-                    0 => hm.infos.iter().find(|d| d.id == id).and_then(|d| d.idx),
-                    1 => hm.filters.iter().find(|d| d.id == id).and_then(|d| d.idx),
-                    2 => hm.formats.iter().find(|d| d.id == id).and_then(|d| d.idx),
-                    _ => hm.contigs.iter().find(|d| d.id == id).and_then(|d| d.idx),
-                };
-            }
-        }
-        match idx {
-            Some(i) if body.ends_with('>') => {
-                out.push_str(&body[..body.len() - 1]);
-                out.push_str(&format!(",IDX={i}>"));
-                if line.ends_with('\n') {
-                    out.push('\n');
-                }
-            }
-            Some(_) => return Err(format!("header line does not end with '>': {body:?}")),
-            None => out.push_str(line),
-        }
-    }
-    Ok(out.into_bytes())
-}
-
-fn strip_idx(h: &VarHeader) -> VarHeader {
-    let mut h = h.clone();
-    for d in h.infos.iter_mut().chain(h.formats.iter_mut()) {
-        d.idx = None;
-    }
-    for d in h.filters.iter_mut() {
-        d.idx = None;
-    }
-    for c in h.contigs.iter_mut() {
-        c.idx = None;
-    }
-    h
-}
-
 fn vcf_line(header: &vcf::Header, r: &dyn vcf::variant::Record) -> Result<Vec<u8>, String> {
     let mut w = vcf::io::Writer::new(Vec::new());
     match panics::catch(|| w.write_variant_record(header, r)) {
@@ -509,8 +460,8 @@ fn io_chain(e: &std::io::Error) -> String {
 #[derive(Clone, Debug, Serialize, Deserialize)]
 pub struct Case {
     pub doc: VarDoc,
-    /// also read the file exactly as the writer produced it when the header's IDX are not the
-    /// order of appearance (known finding: the header writer drops IDX)
+    /// unused (kept so that older replay files still load)
+    #[serde(default)]
     pub as_written: bool,
 }
 
@@ -674,30 +625,12 @@ fn check(case: &Case) -> Verdict {
         return fails.finish(Pass::new(false, key_of(case)));
     }
 
-    // ---- the stream that is read: as written, or with IDX injected into the header text
-    let inject = has_idx(hm) && !natural;
-    let hm_read: VarHeader = if has_idx(hm) { hm.clone() } else { hm.clone() };
-    let patched: Option<Vec<u8>> = if has_idx(hm) {
-        match inject_idx(&raw.text, hm) {
-            Ok(t) => Some(bcf_raw::with_header_text(&stream, &raw, &t)),
-            Err(e) => return fail1("c10.harness.inject-idx", e),
-        }
-    } else {
-        None
-    };
-    // header as read
-    let header2 = {
-        let res = match &patched {
-            Some(p) => bcf::io::Reader::from(&p[..]).read_header(),
-            None => bcf::io::Reader::new(&written.file[..]).read_header(),
-        };
-        match res {
-            Ok(h) => h,
-            Err(e) => {
-                let sig = if patched.is_some() { "c10.idx.header-with-idx-rejected" } else { "c10.header.read-error" };
-                return fail1(sig, format!("bcf read_header: {}; header text {:?}", io_chain(&e), trunc(&String::from_utf8_lossy(&raw.text), 500)));
-            }
-        }
+    // ---- the file is read as written (BGZF)
+    let arbitrary_idx = has_idx(hm) && !natural;
+    let hm_read: &VarHeader = hm;
+    let header2 = match bcf::io::Reader::new(&written.file[..]).read_header() {
+        Ok(h) => h,
+        Err(e) => return fail1("c10.header.read-error", format!("bcf read_header: {}; header text {:?}", io_chain(&e), trunc(&String::from_utf8_lossy(&raw.text), 500))),
     };
     let back = VarHeader::from_noodles(&header2);
     if back != hm_read.normalised() {
@@ -705,7 +638,7 @@ fn check(case: &Case) -> Verdict {
     }
     // dictionary of strings / contigs as the reader built them
     {
-        let (strings, contigs) = expected_string_indices(&hm_read);
+        let (strings, contigs) = expected_string_indices(hm_read);
         for (name, idx) in &strings {
             let got = header2.string_maps().strings().get_index_of(name);
             if got != Some(*idx as usize) || header2.string_maps().strings().get_index(*idx as usize) != Some(name.as_str()) {
@@ -721,8 +654,8 @@ fn check(case: &Case) -> Verdict {
             }
         }
     }
-    let read_stream: &[u8] = patched.as_deref().unwrap_or(&stream);
-    let raw_read = if patched.is_some() { bcf_raw::parse(read_stream).map_err(|e| vec![Fail::new("c10.harness.patched-stream", e)])? } else { raw.clone() };
+    let read_stream: &[u8] = &stream;
+    let raw_read = &raw;
 
     // ---- per record
     let mut labels: Vec<&'static str> = Vec::new();
@@ -948,7 +881,7 @@ fn check(case: &Case) -> Verdict {
     }
 
     // ---- sequential pass over the BGZF file (the ordinary way to read), when nothing else is wrong
-    if all_clean && fails.is_empty() && !inject {
+    if all_clean && fails.is_empty() {
         let mut r = bcf::io::Reader::new(&written.file[..]);
         match r.read_header() {
             Ok(h) => {
@@ -976,34 +909,13 @@ fn check(case: &Case) -> Verdict {
         }
     }
 
-    // ---- the file exactly as written, when its header should have carried IDX (known finding)
-    if inject && case.as_written {
-        let ok = panics::catch(|| -> Result<bool, String> {
-            let mut r = bcf::io::Reader::new(&written.file[..]);
-            let h = r.read_header().map_err(|e| io_chain(&e))?;
-            for (slot, res) in r.record_bufs(&h).enumerate() {
-                let rb = res.map_err(|e| io_chain(&e))?;
-                let got = VarRecord::from_record_buf(&rb).normalised(Target::Bcf, hm);
-                if kept.get(slot).map(|&i| &wants[i]) != Some(&got) {
-                    return Ok(false);
-                }
-            }
-            Ok(true)
-        });
-        match ok {
-            Ok(Ok(true)) => {}
-            Ok(other) => fails.push("c10.idx.not-written-to-header", format!("the BCF writer encodes records with the header's IDX dictionary but writes the header text without IDX: reading the file as written gives {other:?}")),
-            Err(p) => fails.push("c10.idx.not-written-to-header", format!("reading the file as written panics: {}", p.describe())),
-        }
-    }
-
     let mut pass = Pass::new(nontrivial, key_of(case))
         .label(["v4.2", "v4.3", "v4.4", "v4.5", "v?"][(hm.minor as usize).saturating_sub(2).min(4)])
         .label_if(!has_idx(hm), "idx-none")
         .label_if(has_idx(hm) && natural, "idx-natural")
-        .label_if(inject, "idx-arbitrary(injected)")
-        .label_if(inject && expected_string_indices(hm).0.iter().any(|(_, i)| *i > 127), "idx>127")
-        .label_if(inject && expected_string_indices(hm).0.iter().any(|(_, i)| *i > 32767), "idx>32767")
+        .label_if(arbitrary_idx, "idx-arbitrary")
+        .label_if(arbitrary_idx && expected_string_indices(hm).0.iter().any(|(_, i)| *i > 127), "idx>127")
+        .label_if(arbitrary_idx && expected_string_indices(hm).0.iter().any(|(_, i)| *i > 32767), "idx>32767")
         .label_if(rejected_ok > 0, "writer-rejected(acceptable-class)")
         .label_if(case.doc.records.is_empty(), "header-only")
         .evals(case.doc.records.len().max(1) as u64);
@@ -1306,7 +1218,6 @@ pub fn property() -> Property {
         assumptions: vec![
             "the harness's BCF2 reader (oracle/bcf_raw.rs, from the specification), BGZF walker (miniz_oxide) and span arithmetic are correct".into(),
             "normal forms: `[.]` ≡ `.`; dropped trailing sample fields ≡ missing; first-allele phasing implicit before VCF 4.4".into(),
-            "IDX fields are injected into the header text by the harness because the repository's header writer cannot emit them".into(),
             "strings are compared as noodles stores them (raw, not percent-encoded); characters with a meaning in BCF string vectors (`,`, lone `.`, NUL) are outside the asserted domain except as labelled known-defect classes".into(),
         ],
         subs: vec![
